@@ -98,6 +98,7 @@ func gIsName(t gtok, v string) bool { return t.kind == lexer.Name && t.val == v 
 type repair struct {
 	class string
 	apply func(ts []gtok) ([]gtok, bool)
+	alt   bool // the second of two alternative repairs of the same trigger
 }
 
 func mapToks(ts []gtok, f func(i int) (gtok, bool, bool)) ([]gtok, bool) {
@@ -123,7 +124,7 @@ var queryRepairs = []repair{
 			}
 			return ts[i], true, false
 		})
-	}},
+	}, false},
 	// R5b: a variable inside the (const) directives of a variable definition: `$` at parenthesis depth 2
 	{"variable-in-const-directive-of-variable-definition", func(ts []gtok) ([]gtok, bool) {
 		depth := 0
@@ -146,7 +147,7 @@ var queryRepairs = []repair{
 			}
 			return ts[i], true, false
 		})
-	}},
+	}, false},
 }
 
 // the known deviations of the type-system parser
@@ -160,7 +161,19 @@ var schemaRepairs = []repair{
 			}
 			return ts[i], true, false
 		})
-	}},
+	}, false},
+	// R6a, the other direction: `type a "implements" type b` — a description whose content is
+	// `implements` after `type Name` is swallowed as the keyword; with any other content the
+	// parser sees the description
+	{"string-token-as-keyword-implements", func(ts []gtok) ([]gtok, bool) {
+		return mapToks(ts, func(i int) (gtok, bool, bool) {
+			if gIsStr(ts[i]) && ts[i].val == "implements" && i >= 2 && ts[i-1].kind == lexer.Name &&
+				(gIsName(ts[i-2], "type") || gIsName(ts[i-2], "interface")) {
+				return gtok{lexer.String, "implementz"}, true, true
+			}
+			return ts[i], true, false
+		})
+	}, true},
 	// R6g: `schema { "query": Q }`
 	{"string-token-as-operation-type", func(ts []gtok) ([]gtok, bool) {
 		return mapToks(ts, func(i int) (gtok, bool, bool) {
@@ -170,7 +183,7 @@ var schemaRepairs = []repair{
 			}
 			return ts[i], true, false
 		})
-	}},
+	}, false},
 	// R6d: `extend input Foo @d(x: $v)` — no `$` is derivable anywhere in a type-system document
 	{"variable-in-const-directive-of-input-extension", func(ts []gtok) ([]gtok, bool) {
 		return mapToks(ts, func(i int) (gtok, bool, bool) {
@@ -179,7 +192,7 @@ var schemaRepairs = []repair{
 			}
 			return ts[i], true, false
 		})
-	}},
+	}, false},
 	// R6c: `"" extend type Foo { a: Int }`
 	{"empty-description-before-extend", func(ts []gtok) ([]gtok, bool) {
 		return mapToks(ts, func(i int) (gtok, bool, bool) {
@@ -188,7 +201,7 @@ var schemaRepairs = []repair{
 			}
 			return ts[i], true, false
 		})
-	}},
+	}, false},
 	// R6f: `enum E { true }` — renaming true/false/null is verdict-neutral everywhere except in
 	// enum-value position (a const value `true` and an enum value `tru` are both derivable)
 	{"enum-value-true-false-null", func(ts []gtok) ([]gtok, bool) {
@@ -198,7 +211,7 @@ var schemaRepairs = []repair{
 			}
 			return ts[i], true, false
 		})
-	}},
+	}, false},
 	// R6b: `extend interface Foo implements Bar` — object and interface extensions have the same
 	// syntax after the keyword, so `extend type` is the repaired spelling
 	{"extend-interface-implements", func(ts []gtok) ([]gtok, bool) {
@@ -208,13 +221,13 @@ var schemaRepairs = []repair{
 			}
 			return ts[i], true, false
 		})
-	}},
+	}, false},
 }
 
 // schemaWithoutOpsVariants: `schema` / `schema @d` without `{ RootOperationTypeDefinition+ }`
 // (found by this check; not in the DESIGN list). Whether a `schema` token is the keyword cannot be
 // decided on the token level (`type type schema`, `schema @extend schema`), so every non-empty
-// subset of the candidate occurrences (at most 4) is a variant; a wrong guess is never awarded
+// subset of the candidate occurrences (at most 6) is a variant; a wrong guess is never awarded
 // because the repaired spelling must be accepted by parser and grammar.
 func schemaWithoutOpsVariants(ts []gtok) [][]gtok {
 	type site struct{ from, to int } // ts[from] = `schema`, ts[from+1:to] = its directives
@@ -258,7 +271,7 @@ func schemaWithoutOpsVariants(ts []gtok) [][]gtok {
 			}
 		}
 	}
-	if len(sites) == 0 || len(sites) > 4 {
+	if len(sites) == 0 || len(sites) > 6 {
 		return nil
 	}
 	var out [][]gtok
@@ -300,13 +313,28 @@ func classifyCandidates(grammar string, in []byte) (direct string, classes []str
 	if grammar == "schema" {
 		reps = schemaRepairs
 	}
-	all := ts
+	// two cumulative repairs: with the first, and with the second, of alternative repairs
+	all, allAlt := ts, ts
+	hasAlt := false
 	for _, r := range reps {
 		if out, ch := r.apply(ts); ch {
 			classes = append(classes, r.class)
 			repaired = append(repaired, renderGToks(out))
+			hasAlt = hasAlt || r.alt
 		}
-		all, _ = r.apply(all)
+		if !r.alt {
+			all, _ = r.apply(all)
+		}
+	}
+	for k := len(reps) - 1; k >= 0; k-- { // alternative repairs first, so that they win their trigger
+		if reps[k].alt {
+			allAlt, _ = reps[k].apply(allAlt)
+		}
+	}
+	for _, r := range reps {
+		if !r.alt {
+			allAlt, _ = r.apply(allAlt)
+		}
 	}
 	if grammar == "schema" {
 		for _, v := range schemaWithoutOpsVariants(ts) {
@@ -315,12 +343,18 @@ func classifyCandidates(grammar string, in []byte) (direct string, classes []str
 		}
 	}
 	if len(classes) > 1 {
-		classes = append(classes, "combination-of-known-deviations")
-		repaired = append(repaired, renderGToks(all))
-		if grammar == "schema" {
-			for _, v := range schemaWithoutOpsVariants(all) {
-				classes = append(classes, "combination-of-known-deviations")
-				repaired = append(repaired, renderGToks(v))
+		cums := [][]gtok{all}
+		if hasAlt {
+			cums = append(cums, allAlt)
+		}
+		for _, cum := range cums {
+			classes = append(classes, "combination-of-known-deviations")
+			repaired = append(repaired, renderGToks(cum))
+			if grammar == "schema" {
+				for _, v := range schemaWithoutOpsVariants(cum) {
+					classes = append(classes, "combination-of-known-deviations")
+					repaired = append(repaired, renderGToks(v))
+				}
 			}
 		}
 	}
@@ -584,7 +618,7 @@ var grammarProbesQuery = []string{
 
 var grammarProbesSchema = []string{
 	``, ` `, "#c", `type Foo "implements" Bar { a: Int }`, `type Foo """implements""" Bar { a: Int }`, `interface Foo "implements" Bar { a: Int }`, `type Foo implements Bar { a: Int }`,
-	`extend type Foo "implements" Bar`, `extend interface Foo implements Bar`, `extend interface Foo implements Bar & Baz @d { a: Int }`, `extend interface Foo implements & Bar`, `extend type Foo implements Bar`,
+	`extend type Foo "implements" Bar`, `type a "implements" type b`, `type a "implements" type schema`, `interface a """implements""" scalar S`, `schema @schema @schema`, `extend interface Foo implements Bar`, `extend interface Foo implements Bar & Baz @d { a: Int }`, `extend interface Foo implements & Bar`, `extend type Foo implements Bar`,
 	`extend interface Foo @d`, `extend interface Foo { a: Int }`, `extend interface Foo`, `"" extend type Foo { a: Int }`, `"""""" extend type Foo { a: Int }`, `"d" extend type Foo { a: Int }`, `"" type Foo { a: Int }`, `"" extend schema @d`,
 	`extend input Foo @d(x: $v)`, `extend input Foo @d(x: [$v])`, `extend input Foo @d(x: v)`, `extend input Foo @d(x: $v) { a: Int }`, `input Foo @d(x: $v) { a: Int }`, `extend type Foo @d(x: $v)`, `extend input Foo { a: Int = $v }`, `extend input Foo { a: Int @d(x: $v) }`,
 	`enum E { true }`, `enum E { false }`, `enum E { null }`, `enum E { A true }`, `extend enum E { null }`, `enum E { "d" true @d }`, `enum true { A }`, `enum E @true { A }`, `enum E { tru }`, `type T { true: Int }`, `type T { a(true: Int = true): true @true(true: true) }`,
